@@ -22,6 +22,8 @@ from vcheck.core import Task, Violation
 ID = 'C03'
 LEVEL = 'exploration'
 BUDGET = {'quick': 60, 'thorough': 600}
+# deterministic sub-checks repeated in a `python -O` child (core.optimized_child)
+OPT_SUBS = ('restricted#4', 'nearmiss')
 RULE = ('contents: every subset of the nine signatures (one offset-0 '
         'signature x any of VDI@0x40, MBR@510, ISO@32769, plus the FAT '
         'look-alike) stamped on zero/random/text backgrounds at lengths on '
